@@ -98,7 +98,8 @@ def pre_build(ctx):
 def run(ctx):
     import gen_units
     gen_units.g_unit(ctx, "translate_memory")
-    c20.run(ctx, only={"memory_dict<->dataframe", "values2positions", "value2position"})
+    import common as _common
+    _common.guarded(ctx, "K-units", c20.run, ctx, only={"memory_dict<->dataframe", "values2positions", "value2position"})
     u = ctx.unit("D:search(memory_warm_start)", "D",
                  "search() with memory_warm_start frames: arbitrary subsets of the space with scores that differ from the "
                  "objective's, duplicate rows, extra and shuffled columns, frames taken from the previous call's search_data "
